@@ -210,6 +210,12 @@ func (s *State) fabs(x *Term) *Term {
 	}
 	c := s.ctx
 	r := c.Ite(c.Lt(x, s.xzero(x)), c.Neg(x), x)
+	if !r.IsConst() && r != x {
+		if s.absOf == nil {
+			s.absOf = map[*Term]*Term{}
+		}
+		s.absOf[r] = x
+	}
 	if fi := s.finfo[x]; fi != nil {
 		n := &FInfo{exact: fi.exact, scale: fi.scale}
 		if fi.lo != nil {
@@ -358,12 +364,18 @@ func (s *State) fsqrt(x *Term) *Term {
 			}
 		}
 	}
-	nonneg := c.Le(s.xzero(x), x)
-	s.checkNonFinite(nonneg, "sqrt of negative value")
+	if !sumOfSquares(x, 0) {
+		nonneg := c.Le(s.xzero(x), x)
+		s.checkNonFinite(nonneg, "sqrt of negative value")
+	}
 	s.fresh++
 	r := c.Var(fmt.Sprintf("sqrt!%d", s.fresh), SReal)
-	s.assume(c.Le(c.RealConst(new(big.Rat)), r))
-	s.assume(c.Eq(c.Mul(r, r), c.ToReal(x)))
+	s.assumeRaw(c.Le(c.RealConst(new(big.Rat)), r))
+	s.assumeRaw(c.Eq(c.Mul(r, r), c.ToReal(x)))
+	if s.sqrtOf == nil {
+		s.sqrtOf = map[*Term]*Term{}
+	}
+	s.sqrtOf[r] = x
 	n := &FInfo{exact: false, scale: -1}
 	if fi := s.finfo[x]; fi != nil && fi.hi != nil {
 		// sqrt(hi) <= hi+1
@@ -548,7 +560,7 @@ func (s *State) xbinop(op token.Token, a, b *Term) Value {
 			}
 		}
 	case token.MUL:
-		r = c.Mul(a, b)
+		r = s.mulPaired(a, b)
 		if ia.scale >= 0 && ib.scale >= 0 {
 			n.scale = ia.scale + ib.scale
 		}
@@ -740,4 +752,95 @@ func (s *State) checkNonFinite(ok *Term, what string) {
 		panic(pathEnd{"cut: non-finite"})
 	}
 	s.assumeCut(ok, "non-finite float result: "+what)
+}
+
+// mulPaired multiplies a and b; pairs of equal sqrt variables (r*r -> x) and of equal absolute
+// values (|x|*|x| -> x*x) are rewritten, which keeps squares of distances free of sqrt/abs.
+func (s *State) mulPaired(a, b *Term) *Term {
+	c := s.ctx
+	if len(s.sqrtOf) == 0 && len(s.absOf) == 0 {
+		return c.Mul(a, b)
+	}
+	var fs []*Term
+	var flat func(t *Term)
+	flat = func(t *Term) {
+		if t.Op == OpMul && len(fs) < 64 {
+			for _, x := range t.Args {
+				flat(x)
+			}
+			return
+		}
+		fs = append(fs, t)
+	}
+	flat(a)
+	flat(b)
+	special := false
+	for _, f := range fs {
+		if s.sqrtOf[f] != nil || s.absOf[f] != nil {
+			special = true
+		}
+	}
+	if !special {
+		return c.Mul(a, b)
+	}
+	used := make([]bool, len(fs))
+	var out []*Term
+	changed := false
+	for i, f := range fs {
+		if used[i] {
+			continue
+		}
+		if x := s.sqrtOf[f]; x != nil {
+			for j := i + 1; j < len(fs); j++ {
+				if !used[j] && fs[j] == f {
+					used[i], used[j] = true, true
+					out = append(out, x)
+					changed = true
+					break
+				}
+			}
+		} else if x := s.absOf[f]; x != nil {
+			for j := i + 1; j < len(fs); j++ {
+				if !used[j] && fs[j] == f {
+					used[i], used[j] = true, true
+					out = append(out, x, x)
+					changed = true
+					break
+				}
+			}
+		}
+		if !used[i] {
+			used[i] = true
+			out = append(out, f)
+		}
+	}
+	if !changed {
+		return c.Mul(a, b)
+	}
+	r := out[0]
+	for _, f := range out[1:] {
+		r = c.Mul(r, f)
+	}
+	return r
+}
+
+// sumOfSquares: t is syntactically a sum of squares t1*t1 + t2*t2 + ... (hence >= 0 over the reals).
+func sumOfSquares(t *Term, depth int) bool {
+	if depth > 16 {
+		return false
+	}
+	switch t.Op {
+	case OpAdd:
+		for _, a := range t.Args {
+			if !sumOfSquares(a, depth+1) {
+				return false
+			}
+		}
+		return true
+	case OpMul:
+		return len(t.Args) == 2 && t.Args[0] == t.Args[1]
+	case OpConst:
+		return t.Q != nil && t.Q.Sign() >= 0
+	}
+	return false
 }
